@@ -152,7 +152,27 @@ def build_unit(unit_dir, out_path, mutate=None, neg_control=False):
         spec_by_path[fs.path] = fs
 
     pieces = []
+    item_list = []
+    for inc in u.get("include", []):
+        iu = load_unit(os.path.join(os.path.dirname(unit_dir.rstrip("/")), inc))
+        icl = os.path.join(iu["_dir"], "clauses.txt")
+        if os.path.exists(icl):
+            try:
+                ispecs = parse_clauses(open(icl).read(), iu["id"])
+            except ClauseError as e:
+                raise Undecided("%s: clauses.txt: %s" % (iu["id"], e))
+            for fs in ispecs:
+                if not fs.props:
+                    fs.props = iu.get("properties", [])
+                if fs.path in spec_by_path:
+                    raise Undecided("%s: duplicate @fn %s (include %s)" % (uid, fs.path, inc))
+                spec_by_path[fs.path] = fs
+            fnspecs = fnspecs + ispecs
+        for item in iu.get("item", []):
+            item_list.append((item, iu.get("source"), set(iu.get("rewrites", ["R1", "R2"]))))
     for item in u.get("item", []):
+        item_list.append((item, default_src, rewrites))
+    for item, default_src, rewrites in item_list:
         srcspec = item.get("source", default_src)
         path, shown = resolve_source(srcspec)
         sf = SourceFile.get(path)
@@ -269,6 +289,10 @@ def build_unit(unit_dir, out_path, mutate=None, neg_control=False):
             if e.start != e.end:
                 raise Undecided("%s: %s: splice is not insert-only" % (uid, p.label))
         p.t2, p.segs2 = t2, segs
+    for item, _d, _r in item_list:
+        for tok in item.get("r4_statements", ()):
+            if not any(tok in ed["del"] for p in pieces for lg in p.rw_log if lg["rewrite"] == "R4" for ed in lg["edits"]):
+                raise Undecided("%s: R4: listed statement %r not found" % (uid, tok))
     missing = set(spec_by_path) - used_specs
     if missing:
         raise Undecided("%s: clauses for items that were not extracted: %s" % (uid, sorted(missing)))
@@ -277,7 +301,12 @@ def build_unit(unit_dir, out_path, mutate=None, neg_control=False):
     prelude_names = u.get("prelude", ["prelude.rs"])
     pre_text = ""
     for pn in prelude_names:
-        pp = os.path.join(unit_dir, pn) if not pn.startswith("_shared/") else os.path.join(VERIF, "contracts", pn)
+        if pn.startswith("_shared/"):
+            pp = os.path.join(VERIF, "contracts", pn)
+        elif pn.startswith("@"):
+            pp = os.path.join(VERIF, "contracts", pn[1:], "prelude.rs")
+        else:
+            pp = os.path.join(unit_dir, pn)
         pre_text += open(pp).read()
         if not pre_text.endswith("\n"):
             pre_text += "\n"
